@@ -215,9 +215,9 @@ func (b *scriptBackend) Close() error { return nil }
 // nopWriteBack accepts write-back tasks and never runs them.
 type nopWriteBack struct{}
 
-func (nopWriteBack) Add(persistedretry.Task) error                { return nil }
-func (nopWriteBack) SyncExec(persistedretry.Task) error           { return nil }
-func (nopWriteBack) Close()                                       {}
+func (nopWriteBack) Add(persistedretry.Task) error                   { return nil }
+func (nopWriteBack) SyncExec(persistedretry.Task) error              { return nil }
+func (nopWriteBack) Close()                                          {}
 func (nopWriteBack) Find(interface{}) ([]persistedretry.Task, error) { return nil, nil }
 
 type origin struct {
